@@ -33,8 +33,15 @@ func profC09() *RevProfile {
 func lastInstant(obs *RevObs, co *CallObs) time.Time {
 	t := co.TStart
 	ck := co.World.callerKeyOf(co.Rep)
+	// exchanges of the other callers of the same chain count too: a library
+	// that lets overlapping identical checks share one exchange is waiting
+	// for something
+	same := map[int]bool{ck: true}
+	for r := 0; r < co.World.Reps; r++ {
+		same[co.World.callerKeyOf(r)] = true
+	}
 	for _, x := range obs.Net.All() {
-		if x.Rec.CallerID != ck || !x.Rec.Begun {
+		if !same[x.Rec.CallerID] || !x.Rec.Begun {
 			continue
 		}
 		if co.World.Entry != EValidateContext && !strings.HasSuffix(hostOf(x.URL), fmt.Sprintf(".w%d.sim", co.World.ID)) && hostOf(x.URL) != "redirect.sim" {
